@@ -48,3 +48,39 @@ Theorem C04_generic_pipeline_is_closed_form :
   = res_amp_core (Cmul g1 g2) J q2 q02 p p0 m0R g0R d mR (cos th2).
 Proof. exact generic_pipeline_is_closed_form. Qed.
 Print Assumptions C04_generic_pipeline_is_closed_form.
+
+From Coq Require Import Lia.
+From TFV Require Import Shape.LineShapes_proofs.
+(* ---- production barrier after the repair of Bprime_q2 (hunt round 2, finding 1; model: Amp/Pipeline0.v Bprime_q2_abs,
+   res_amp_core_abs - the closed form the check ties to the code) ---- *)
+(* for every nominal mass the event-dependent Blatt-Weisskopf shape 1/sqrt(P_J(q^2 d^2)) is present; the polynomial at the
+   nominal momentum (negative for odd J far beyond the kinematic limit) enters by its modulus *)
+Theorem C04_barrier_shape_any_nominal_mass : forall J q2 q02 d,
+  (J <= 4)%nat -> 0 <= q2 -> bp J (q02 * d ^ 2) <> 0 ->
+  Bprime_q2_abs J q2 q02 d = sqrt (Rabs (bp J (q02 * d ^ 2))) / sqrt (bp J (q2 * d ^ 2)).
+Proof. intros J q2 q02 d HJ. apply Bprime_q2_abs_shape. lia. Qed.
+Print Assumptions C04_barrier_shape_any_nominal_mass.
+
+(* inside the kinematic limit (q0^2 >= 0) nothing changes: B'_J(q, q0, d) of the documentation *)
+Theorem C04_barrier_inside_is_bprime : forall J q q0 d, (J <= 4)%nat ->
+  Bprime_q2_abs J (q ^ 2) (q0 ^ 2) d = Bprime J q q0 d.
+Proof.
+  intros J q q0 d HJ. rewrite Bprime_q2_abs_inside; [apply bprime_q2_agrees; lia|lia|apply pow2_ge_0].
+Qed.
+Print Assumptions C04_barrier_inside_is_bprime.
+
+(* the code before the repair (Shape.LineShapes.Bprime_q2: the whole factor replaced by 1 when the ratio is negative)
+   does not have that shape *)
+Theorem C04_old_barrier_shape_refuted :
+  exists L q2 q02 d, (L <= 4)%nat /\ 0 < q2 /\ bp L (q02 * d ^ 2) <> 0 /\
+    Bprime_q2 L q2 q02 d <> sqrt (Rabs (bp L (q02 * d ^ 2))) / sqrt (bp L (q2 * d ^ 2)).
+Proof. exact Bprime_q2_old_shape_refuted. Qed.
+Print Assumptions C04_old_barrier_shape_refuted.
+
+Theorem C04_generic_pipeline_is_closed_form_abs :
+  forall J (g1 g2 : C) q2 q02 p p0 d mR m0R g0R phi1 th1 phi2 th2,
+  (J <= 4)%nat -> 0 < p -> 0 < p0 -> 0 <= bp J (q02 * d ^ 2) ->
+  generic_chain0 J g1 g2 q2 q02 (p ^ 2) (p0 ^ 2) d (BWR mR m0R g0R p p0 J d) phi1 th1 phi2 th2
+  = res_amp_core_abs (Cmul g1 g2) J q2 q02 p p0 m0R g0R d mR (cos th2).
+Proof. exact generic_pipeline_is_closed_form_abs. Qed.
+Print Assumptions C04_generic_pipeline_is_closed_form_abs.
